@@ -312,6 +312,9 @@ func init() {
 	reg("github.com/pkg/errors.Wrap", "nil for nil, otherwise a fresh non-nil error", wrap)
 	reg("github.com/pkg/errors.Wrapf", "nil for nil, otherwise a fresh non-nil error", wrap)
 	reg("github.com/pkg/errors.WithMessage", "nil for nil, otherwise a fresh non-nil error", wrap)
+	reg("errors.Is", "identity comparison along no Unwrap chain (the errors used by the harnesses are plain values)", func(in *Interp, fn *ssa.Function, a []Value) Value {
+		return in.valuesEqual(a[0], a[1], "errors.Is")
+	})
 	reg("(*log.Logger).Output", "log output dropped", func(in *Interp, fn *ssa.Function, a []Value) Value { return Iface{} })
 	reg("log.New", "returns a nil logger (its Output is a stub)", func(in *Interp, fn *ssa.Function, a []Value) Value { return Ptr{} })
 
